@@ -58,6 +58,8 @@ func (e c04Ev) typ() string {
 		return e.Method
 	case "resp":
 		return fmt.Sprintf("resp%d", e.Code)
+	case "notify-early":
+		return "notify-before-the-subscription-is-answered"
 	case "notify-sub":
 		if e.Method != "" {
 			return "backend-dialog-" + e.Method
@@ -129,6 +131,7 @@ func c04Exec(fl c04Flavor, hist []c04Ev) (string, string, string) {
 	const lifetime = int64(1200e9)
 	ds := []*dlg{{answered: map[int]bool{}}, {answered: map[int]bool{}}}
 	subBackend, subPinned := "", ""
+	subEarly := false
 	var subRelayed *WMsg
 	seq := 0
 	branch := func() string { seq++; return fmt.Sprintf("z9hG4bKq%d", seq) }
@@ -276,9 +279,17 @@ func c04Exec(fl c04Flavor, hist []c04Ev) (string, string, string) {
 				return "", "subscribe-response-not-relayed-to-backend", fmt.Sprintf("%s: %s", desc, obs.Summary())
 			}
 			subPinned = subBackend
-		case "notify-sub":
-			if subPinned == "" {
+		case "notify-sub", "notify-early":
+			// notify-early: the subscriber's first NOTIFY overtakes its 200: the subscription has not been
+			// answered yet, so the request belongs to no known dialog and is load-balanced (once only)
+			if ev.Kind == "notify-early" && (subBackend == "" || subPinned != "" || subRelayed == nil || subEarly) {
 				return "", "invalid", ""
+			}
+			if ev.Kind == "notify-sub" && subPinned == "" {
+				return "", "invalid", ""
+			}
+			if ev.Kind == "notify-early" {
+				subEarly = true
 			}
 			from, to := "<sip:alice@ua.example.net>;tag=as-1", "<sip:bob@svc.example.com>;tag=bs-1"
 			method := "NOTIFY"
@@ -320,7 +331,7 @@ func c04Exec(fl c04Flavor, hist []c04Ev) (string, string, string) {
 	if w.S.W.NowNS > 2e9 {
 		fmt.Fprintf(&b, "now=%d,sweep=%d|", w.S.W.NowNS/1e9, sweep.UnixNano()/1e9)
 	}
-	fmt.Fprintf(&b, "sub:%s,%s|", subBackend, subPinned)
+	fmt.Fprintf(&b, "sub:%s,%s,%v|", subBackend, subPinned, subEarly)
 	var keys []string
 	for _, pin := range pins {
 		if strings.Contains(pin.Key, "z9hG4bK") {
@@ -348,7 +359,7 @@ func c04Events(thorough bool) []c04Ev {
 	for _, m := range []string{"OPTIONS", "MESSAGE", "REFER", "PUBLISH", "X-CUSTOM"} {
 		evs = append(evs, c04Ev{Kind: "req", D: 0, Method: m}, c04Ev{Kind: "req", D: 1, Method: m, Swap: true})
 	}
-	evs = append(evs, c04Ev{Kind: "sub"}, c04Ev{Kind: "subresp"}, c04Ev{Kind: "notify-sub"}, c04Ev{Kind: "notify-sub", Method: "SUBSCRIBE"})
+	evs = append(evs, c04Ev{Kind: "sub"}, c04Ev{Kind: "subresp"}, c04Ev{Kind: "notify-sub"}, c04Ev{Kind: "notify-sub", Method: "SUBSCRIBE"}, c04Ev{Kind: "notify-early"})
 	return evs
 }
 
